@@ -929,7 +929,10 @@ class ODLParser(PVLParser):
         on numeric values, any others will result in a ValueError.
         """
 
-        if isinstance(value, int) or isinstance(value, float):
+        # A real number may be an instance of the decoder's real_cls
+        # (e.g. decimal.Decimal) instead of a float.
+        numeric_types = (int, float, getattr(self.decoder, "real_cls", float))
+        if isinstance(value, numeric_types):
             return super().parse_units(value, tokens)
 
         else:
